@@ -31,6 +31,14 @@ def specs(tier):
             spec('skipq-D2-bypass', 'D2', 'development/4.3',
                  'development/4.3', skip=True, depth=4, comments=bypass,
                  statuses_q=['SUCCESSFUL', 'INPROGRESS'], stale=True),
+            spec('q-D2-same-queued', 'D2', 'development/4.3',
+                 'development/4.3', depth=4,
+                 config={'layout': 'D2', 'queue': True, 'skip_queue': False,
+                         'options': BYPASS_REVIEW + ['bypass_build_status']},
+                 init=[['open', PR1, 'development/4.3'],
+                       ['open', PR2, 'development/4.3'],
+                       ['eval_pr', 1], ['eval_pr', 2]],
+                 statuses_int=[], statuses_q=['SUCCESSFUL', 'FAILED']),
             spec('skipq-D2-diff', 'D2', 'development/4.3',
                  'development/5.1', skip=True, depth=5,
                  statuses_q=['SUCCESSFUL'],
